@@ -194,6 +194,33 @@ def clause_remove_all_leaves(prog, rep):
                         if any(y.name == "contains" for y in c2):
                             per_member = True
             root = prog.fns.get(f.root, f)
+            # ... by that test alone: a second condition on the member (its identity compared with the caller's, its index, ...) between the
+            # loop head and the push keeps leaves of a requested identity in the group
+            extra = []
+            for x in calls:
+                if x.name != "push":
+                    continue
+                for w in A.control_dependent_switches(f, x.bb):
+                    dl = A._opl(f.term(w)["discr"])
+                    if dl is None:
+                        continue
+                    # `?` and iterator-exhaustion switches are not filters
+                    if any(b2 == w and s2.get("k") == "discr" and s2["d"] == [dl] for b2, s2 in f.stmts()):
+                        continue
+                    d2, c2, _ = f.depends_on(dl)
+                    # a condition on the member at hand: computed from what the iterator over members() yielded
+                    nexts = [y for y in f.live_calls() if y.name == "next" and y.dst and y.args and "p" in y.args[0]
+                             and any(z.name == "members" and last_seg(z.self_adt) == "MlsGroup" for z in f.depends_on(y.args[0]["p"][0])[1])]
+                    # (inside the walk: the switch lies on a cycle through the iterator's next())
+                    in_loop = any(w in f.reachable_from(y.bb) and y.bb in f.reachable_from(w) for y in nexts)
+                    on_member = in_loop and any(y.dst[0] in d2 for y in nexts)
+                    if on_member and not any(y.name == "contains" for y in c2):
+                        extra.append(sorted(set(y.name for y in c2 if y.name not in ("next", "members", "into_iter", "deref", "branch", "from_residual")))[:4])
+            if per_member:
+                rep.check(not extra, "remove-every-leaf", "%s/MlsGroup::remove_members/selected-by-membership-only" % root.label(),
+                          "a member's leaf is selected exactly when its identity is in the requested list",
+                          "besides the membership test a second condition on the member decides whether its leaf is removed (%s): leaves of a "
+                          "requested identity can stay in the group" % extra, c.loc())
             # the walk over members() runs to exhaustion: the removal is reached from a push only through the iterator's None arm
             # (an early `break` once "enough" leaves were found leaves the user's other clients in the group)
             exhaust = True
